@@ -1,31 +1,89 @@
 """C10, C11, C12 (+ the refinement-history half of C06): RunGrid.tla checked by TLC, behaviours replayed on the real
-run(), traces of the real run() validated by TLC against RunGridTrace.tla."""
+run(), traces of the real run() validated by TLC against RunGridTrace.tla (strict level = the code as it is, reported as
+information; property level = what the property statements need, decides violations)."""
 import os
 import random
-import glob
 import shutil
 import json
+import glob
+import copy
+from collections import Counter
+from concurrent.futures import ThreadPoolExecutor
 
 from .. import tlc
 from ..common import Report, MachineryError, workdir, seed, WORK
-from ..rungrid_world import Geometry, GROUP_TLA, GROUPS
+from ..rungrid_world import Geometry, GROUP_TLA, GROUPS, Priority
 from .. import rungrid_scripts as RS
 from .. import rungrid_trace as RT
 
 PROPS = {
     "C10": dict(level='model_checking', technique='TLC exhaustive on RunGrid.tla + TLC trace validation of real run() executions (hook events) + replay of TLC simulate behaviours',
-               text='TLC explores every refinement choice, storage mode, symmetry setting and iteration order inside small constants and checks IntegralConsistent / WeightOne / SavedWeightOne on every state; the same invariants are evaluated by TLC on every state of traces recorded from the real run() (scenarios derived from TLC behaviours and seeded random ones), with the projected K-list, weights, running-integral coefficients and files compared with the specification after every event.',
-               note='trusts: the one-hot abstraction of per-K results, the projection functions in harness/rungrid_world.py, TLC; bounded to the listed geometries', ref='DESIGN.md 3.1'),
+               text='TLC explores the refinement choices, storage modes (memory, dump_results, discarded), symmetry settings and (1-D configs) iteration orders of the configurations listed in the evidence file and checks IntegralConsistent / WeightOne / SavedWeightOne on every state; the same invariants are evaluated by TLC on every state of traces recorded from the real run() (scenarios derived from TLC behaviours and seeded random ones). On the property level the K-point list of the implementation is compared with the specification up to order and choice of orbit representatives, and the weights, the coefficients of the running integral after every update, every saved file, the value at the Return hook and the object returned by run() are compared exactly; the strict level (same list, flags, files, orders) is reported as information only. Large lists (32x32, six refinement levels): the projected weight/coefficient vectors of every update are compared by TLC (RunGridSummaryRec).',
+               note='trusts: the one-hot abstraction of per-K results (one calculator, rank 0, identity symmetry transform), the projection functions in harness/rungrid_world.py, the hook commit in run_grid.py, TLC; bounded to the listed geometries (1-D/2-D, isotropic adpt_mesh 2 or 3, adpt_fac 1 or 2, <= 3 iterations; 6 in the large worlds)', ref='DESIGN.md 3.1'),
     "C11": dict(level='model_checking', technique='TLC exhaustive A/B product (uninterrupted vs stopped+restarted run) on RunGrid.tla + trace validation of real stop/restart executions with permuted directory listings',
-               text='RestartEquivalence is checked by TLC over all stopping points, splits, storage modes and listing permutations inside the constants; real run() calls are stopped and restarted along TLC-generated and random scenarios with a listing-order shim, and TLC validates the recorded traces including equality of every saved/returned result with the uninterrupted reference.',
-               note='trusts: same as C10 plus the glob shim (only permutes the real listing)', ref='DESIGN.md 3.1'),
-    "C12": dict(level='model_checking', technique='TLC exhaustive over completion orders and ray.wait answers on RunGrid.tla + trace validation of the real process() under a schedule-controlled ray double + numeric serial-vs-parallel comparison with real calculators',
-               text='CollectedOnce / AllCollected / IntegralConsistent are checked by TLC for every interleaving of completions and every contract-conforming ray.wait answer; the unmodified process() is driven through those schedules and its traces validated; grid and path tabulations are compared serial vs parallel (path order).',
-               note='trusts: the ray double follows the documented ray.wait contract (one real-ray smoke run in the thorough tier)', ref='DESIGN.md 3.1'),
+               text='RestartEquivalence is checked by TLC over all stopping points, splits, storage modes, restart_iteration values and listing permutations inside the constants (2 iterations in the quick tier, 3 in the thorough tier); real run() calls are stopped and restarted along TLC-generated and random scenarios (at most 4 restart steps) with a shim that permutes what glob / os.listdir / os.scandir return inside run_grid (the number of restarts in which the implementation actually consulted a permuted listing is reported in parts.listing_shim), and TLC validates the recorded traces including equality of every saved/returned result with the uninterrupted reference and the start iteration of each restart. ResumeLatest / PickleAppendOnly / FactorFilesGrow are properties of the TLC model; on real traces the restart files are compared on the strict level only (information).',
+               note='trusts: same as C10 plus the listing shim (only permutes the real listing); restarts happen in the same process; going back (restart_iteration < -1 or explicit) is exercised with symmetry only (without symmetry the later points are re-created, not re-used: outside the model)', ref='DESIGN.md 3.1'),
+    "C12": dict(level='model_checking', technique='TLC exhaustive over completion orders and ray.wait answers on RunGrid.tla + trace validation of the real process() under a schedule-controlled ray double (pass-by-value) + numeric serial-vs-parallel comparison with real calculators (numeric_only part)',
+               text='CollectedOnce / AllCollected / IntegralConsistent are checked by TLC for every interleaving of completions and every contract-conforming ray.wait answer (5 tasks / 2 per wait, 4 tasks / 1 per wait, one refinement iteration; 6 tasks in the thorough tier); the unmodified process() is driven through TLC-generated and random schedules by a ray double that pickles arguments and results like ray, and its traces are validated (property level: every selected K-point collected exactly once in any order, coefficients of the running integral). The tabulation half of the statement (grid / path order, each point its own values) has no TLA+ model: it is a numeric comparison serial vs parallel with real calculators, reported as parts.numeric_only.',
+               note='trusts: the ray double follows the documented ray.wait contract (checked against real ray only in the thorough tier: one smoke run); evidence level of the tabulation half is exploration', ref='DESIGN.md 3.1'),
 }
 
 INVS_ALL = ["TypeOK", "NoError", "WeightOne", "NoEquivDup", "OrbitWeight", "DistinctStoragePaths", "Tiling", "IntegralConsistent",
             "SavedWeightOne", "ReturnedWeightOne", "CollectedOnce", "AllCollected", "RestartEquivalence"]
+
+WORKERS = int(os.environ.get("VERIF_TLC_WORKERS", "16"))
+POOL = max(1, int(os.environ.get("VERIF_TLC_POOL", str(WORKERS // 4))))   # concurrent single-worker TLC runs
+
+SERIAL_ACTS = ["MBeginProcess", "MEvalSerial", "MEndSerial", "MAppendPickle", "MUpdateFirst", "MUpdateIncr", "MSaveData", "MReturn"]
+PAR_ACTS = ["MBeginProcess", "MComplete", "MWaitFull", "MWaitTimeout", "MCollect", "MEndCollect", "MAppendPickle", "MUpdateFirst",
+            "MUpdateIncr", "MSaveData", "MReturn"]
+RUN_ACTIONS = ["StartA", "RefineA"] + SERIAL_ACTS
+B_ACTIONS = ["EndA", "StartB", "RestartBLatest", "RefineB"]
+
+
+class Ctx:
+    """one check run: report, scratch names unique per property id and process, counters"""
+
+    def __init__(self, pid, tier):
+        self.pid, self.tier = pid, tier
+        self.thorough = tier == "thorough"
+        self.rep = Report(pid, tier, "model_checking")
+        self.tag = f"{pid}_{os.getpid()}"
+        self.classes = Counter()
+        self.skipped_private = []
+        self.soft_missing = set()
+        self.repr_diff = Counter()
+        self.listing = Counter()
+        self.ray_fallbacks = 0
+        self.traces_off = False
+        self.cpu0 = os.times()
+
+    def wd(self, name):
+        return workdir(f"rg_{self.tag}_{name}")
+
+    def tname(self, name):
+        return f"{self.tag}_{name}"
+
+    def cleanup(self):
+        keep = bool(self.rep.violations)
+        pats = [os.path.join(WORK, f"rg_{self.tag}_*"), os.path.join(WORK, "records", f"{self.tag}_*"),
+                os.path.join(WORK, "records", f"rec_{self.tag}_*")]
+        if not keep:
+            pats += [os.path.join(WORK, "tlc", f"*{self.tag}_*"), os.path.join(WORK, "traces", f"{self.tag}_*")]
+        for p in pats:
+            for d in glob.glob(p):
+                shutil.rmtree(d, ignore_errors=True)
+
+    def note_world(self, w):
+        self.soft_missing |= set(w.soft_missing)
+        self.listing["restarts_with_permuted_listing"] += w.listing_restarts
+        self.listing["listing_consulted_by_implementation"] += w.listing_consulted
+        self.ray_fallbacks += w.ray_fallbacks
+
+    def cpu(self):
+        t = os.times()
+        return round((t.user + t.system + t.children_user + t.children_system)
+                     - (self.cpu0.user + self.cpu0.system + self.cpu0.children_user + self.cpu0.children_system), 1)
 
 
 def bset(vals):
@@ -34,7 +92,7 @@ def bset(vals):
 
 def mc_cfg(geo, nstep=2, niter=2, adptfac=1, parA=(False,), parB=(False,), dump=(False, True), allowA=(False, True),
            sym=(True, False), withB=True, allorders=True, acc=True, sorted_listing=True, waitfirst=False, view=True,
-           restart_iters=(1,),
+           restart_iters=(1,), maxleg=9,
            invs=INVS_ALL, props=("PickleAppendOnly", "FactorFilesGrow", "ResumeLatest")):
     lines = ["SPECIFICATION MCSpec", "CONSTANTS",
              f"  D = {geo.D}", f"  N = {geo.N}", f"  NDIV = {geo.NDIV}", f"  LMAX = {geo.LMAX}",
@@ -45,7 +103,7 @@ def mc_cfg(geo, nstep=2, niter=2, adptfac=1, parA=(False,), parB=(False,), dump=
              f"  ParA = {bset(parA)}", f"  ParB = {bset(parB)}", f"  DumpSet = {bset(dump)}", f"  AllowASet = {bset(allowA)}",
              f"  SymSet = {bset(sym)}", f"  WithB = {'TRUE' if withB else 'FALSE'}",
              f"  AllOrders = {'TRUE' if allorders else 'FALSE'}",
-             "  RestartIters = {" + ", ".join(str(r) for r in restart_iters) + "}"]
+             "  RestartIters = {" + ", ".join(str(r) for r in restart_iters) + "}", f"  MaxLeg = {maxleg}"]
     if view:
         lines.append("VIEW mcview")
     lines += [f"INVARIANT {i}" for i in invs]
@@ -54,8 +112,9 @@ def mc_cfg(geo, nstep=2, niter=2, adptfac=1, parA=(False,), parB=(False,), dump=
     return "\n".join(lines) + "\n"
 
 
-def exhaustive(rep, name, cfg, must_hold=True, timeout=1500, expect_actions=()):
-    st = tlc.run_tlc("MC_RunGrid.tla", cfg, name, workers=16, timeout=timeout)
+def exhaustive(ctx, name, cfg, must_hold=True, timeout=3000, expect_actions=()):
+    rep = ctx.rep
+    st = tlc.run_tlc("MC_RunGrid.tla", cfg, ctx.tname(name), workers=WORKERS, timeout=timeout)
     if st.get("timeout"):
         raise MachineryError(f"TLC timed out on {name}")
     if st.get("error") and not st.get("violation"):
@@ -69,24 +128,32 @@ def exhaustive(rep, name, cfg, must_hold=True, timeout=1500, expect_actions=()):
             tlc.check_not_vacuous(st, expect_actions, name)
         rep.add_tlc(name, st)
     else:
-        # sensitivity self-test: the model of the unrepaired code must violate the property
+        # sensitivity / reachability self-test: the model must violate the property
         if not st["violation"]:
-            raise MachineryError(f"sensitivity self-test failed: {name} should violate an invariant but TLC found none")
-        rep.part(name, sensitivity_violation=st["violation"][1], distinct=st["distinct"])
+            raise MachineryError(f"self-test failed: {name} should violate an invariant but TLC found none")
+        rep.part(name, expected_violation=st["violation"][1], distinct=st["distinct"])
     return st
 
 
-def simulate_scripts(geo, cfg, name, num, depth, sd):
-    simdir = workdir("sim_" + name)
-    st = tlc.run_tlc("MC_RunGrid.tla", cfg, "sim_" + name, workers=1, coverage=False, timeout=600,
+def simulate_scripts(ctx, geo, cfg, name, num, depth, sd):
+    simdir = ctx.wd("sim_" + name)
+    st = tlc.run_tlc("MC_RunGrid.tla", cfg, ctx.tname("sim_" + name), workers=1, coverage=False, timeout=1800,
                      simulate=f"file={simdir}/tr,num={num}", depth=depth, seed=sd)
     if st.get("violation"):
+        ctx.rep.violation(f"spec:sim_{name}:{st['violation'][1]}",
+                          dict(what="TLC -simulate found a violation in the specification model", config=name,
+                               violated=st["violation"], tlc_out=os.path.join(st["meta"], "tlc.out")))
+        shutil.rmtree(simdir, ignore_errors=True)
         return st, []
     if st.get("error"):
         raise MachineryError(f"TLC simulate error on {name}: {st['error'][:400]}")
     behs = RS.load_behaviours(simdir)
     shutil.rmtree(simdir, ignore_errors=True)
-    return st, [RS.script_from_behaviour(b) for b in behs]
+    scripts = [RS.script_from_behaviour(b) for b in behs]
+    scripts = [s for s in scripts if any(o["op"] == "run" for o in s)]
+    if not scripts:
+        raise MachineryError(f"TLC simulate produced no usable behaviour for {name} (timeout={st.get('timeout')})")
+    return st, scripts
 
 
 def summarize_ops(ops):
@@ -96,7 +163,7 @@ def summarize_ops(ops):
             out.append("MarkRef")
         else:
             m = o["mode"]
-            out.append(dict(run="restart" if o["restart"] else "fresh", nit=o["nit"],
+            out.append(dict(run="restart" if o["restart"] else "fresh", nit=o["nit"], ri=o.get("ri", -1),
                             mode="".join(k[0] for k in ("par", "dump", "allow", "sym") if m[k]),
                             listing=o.get("listing"), refine=[[list(c[0]) + [c[1]] for c in cs] for _, cs in o.get("refine", [])],
                             sched={str(k): v for k, v in o.get("sched", {}).items()}))
@@ -104,115 +171,221 @@ def summarize_ops(ops):
 
 
 class Batch:
-    """collects traces per (geometry, nstep) and validates them together"""
+    """collects traces per (geometry, nstep) and validates them together; turns what went wrong while a scenario was
+    executed into violations (the package raised / a projected value is off the lattice) or into a degradation (private
+    names gone)"""
 
-    def __init__(self, rep, pid):
-        self.rep = rep
-        self.pid = pid
+    def __init__(self, ctx):
+        self.ctx = ctx
+        self.rep = ctx.rep
         self.groups = {}
 
-    def add(self, geo, nstep, trace, info):
-        self.groups.setdefault((geo.key(), nstep), (geo, [], []))
-        g = self.groups[(geo.key(), nstep)]
+    def add(self, geo, nstep, world, trace, info, classes=()):
+        ctx = self.ctx
+        ctx.note_world(world)
+        cut = len(trace)
+        for e in world.errors:
+            self.rep.violation(f"raises:{e['site']}:{e['type']}",
+                               dict(what="run() raised on a scenario of the specification", error=e["text"], traceback=e["traceback"],
+                                    geometry=geo.key(), nstep=nstep, scenario=info, events_before=[x.get("e") for x in trace[:e["at_event"]]][-6:]))
+            cut = min(cut, e["at_event"])
+        if world.problems:
+            at, text = world.problems[0]
+            self.rep.violation("projection:nonintegral",
+                               dict(what="a K-point coordinate, weight or coefficient of the implementation is not on the lattice of the "
+                                         "geometry (weights are multiples of 1/WTOT, one-hot rows agree)", problem=text,
+                                    all_problems=[t for _, t in world.problems[:5]], geometry=geo.key(), nstep=nstep, scenario=info,
+                                    events_before=[x.get("e") for x in trace[:at]][-6:]))
+            cut = min(cut, at)
+        if world.private_gone:
+            ctx.skipped_private += [p for p in world.private_gone if p not in ctx.skipped_private]
+            return False
+        trace = trace[:cut]
+        if not trace:
+            return False
+        for c in classes:
+            ctx.classes[c] += 1
+        g = self.groups.setdefault((geo.key(), nstep), (geo, [], []))
         g[1].append(trace)
         g[2].append(info)
+        return True
 
     def validate(self, name):
+        ctx = self.ctx
+        jobs = []
         for (gk, nstep), (geo, traces, infos) in self.groups.items():
             nm = f"{name}_{'_'.join(str(x) for x in gk)}_{nstep}"
-            st, verdicts = RT.validate(traces, geo, nstep, nm)
-            self.rep.add_tlc("trace_" + nm, st)
+            jobs.append((nm, geo, nstep, traces, infos, gk))
+
+        def work(job):
+            nm, geo, nstep, traces, infos, gk = job
+            return RT.validate(traces, geo, nstep, ctx.tname(nm))
+        if POOL > 1 and len(jobs) > 1:
+            with ThreadPoolExecutor(max_workers=POOL) as ex:
+                results = list(ex.map(work, jobs))
+        else:
+            results = [work(j) for j in jobs]
+        for (nm, geo, nstep, traces, infos, gk), (stats, verdicts) in zip(jobs, results):
+            tot = dict(distinct=sum(s.get("distinct", 0) for s in stats), generated=sum(s.get("generated", 0) for s in stats),
+                       wall_s=round(sum(s.get("wall_s", 0) for s in stats), 2), mode="trace-validation", depth=max([s.get("depth", 0) for s in stats] or [0]))
+            self.rep.add_tlc("trace_" + nm, tot)
             self.rep.add_traces(len(traces))
             for tr, info, v in zip(traces, infos, verdicts):
                 if not v["ok"]:
                     key = f"trace:{v.get('clause', '?')}"
-                    self.rep.violation(key, dict(why=v["why"], geometry=gk, nstep=nstep, scenario=info,
-                                                 trace_prefix=tr[:v["at"] + 1][-4:]))
+                    t2 = v.get("trace", tr)
+                    self.rep.violation(key, dict(why=v["why"], level=v.get("level"), geometry=gk, nstep=nstep, scenario=info,
+                                                 trace_prefix=t2[:v["at"] + 1][-4:]))
+                elif v.get("repr"):
+                    r = v["repr"]
+                    ctx.repr_diff[f"{r.get('event')}:{r.get('clause') or 'not enabled'}"] += 1
         self.groups = {}
 
 
-def run_scripts(rep, batch, geo, scripts, name, adpt_fac=1, ncpu=2, origin="tlc-behaviour"):
-    wd = workdir("rg_" + name)
+def run_scripts(ctx, batch, geo, scripts, name, adpt_fac=1, ncpu=2, origin="tlc-behaviour"):
+    rep = ctx.rep
+    wd = ctx.wd(name)
     for i, ops in enumerate(scripts):
         if not any(o["op"] == "run" for o in ops):
             continue
         ev, errs, w = RS.execute(ops, geo, os.path.join(wd, f"s{i}"), adpt_fac=adpt_fac, ncpu=ncpu)
         info = dict(origin=origin, ops=summarize_ops(ops), adpt_fac=adpt_fac, ncpu=ncpu)
-        if w.problems:
-            info["projection_problems"] = w.problems[:3]
-        batch.add(geo, ncpu, ev, info)
+        if w.skipped_ops:
+            info["ops_not_executed"] = w.skipped_ops
+        batch.add(geo, ncpu, w, ev, info, classes={origin} | RS.classes_of(info["ops"], w))
         rep.case((geo.key(), json.dumps(info["ops"], sort_keys=True, default=str)))
         rep.sample(dict(geometry=geo.key(), scenario=info["ops"], events=len(ev)), limit=3)
     shutil.rmtree(wd, ignore_errors=True)
 
 
-def run_random(rep, batch, geo, rng, n, niter, name, adpt_fac=1, ncpu=2, allow_par=True):
-    wd = workdir("rgr_" + name)
+def run_random(ctx, batch, geo, rng, n, niter, name, adpt_fac=1, ncpu=2, allow_par=True):
+    wd = ctx.wd("r_" + name)
     for i in range(n):
         ev, errs, w, summary = RS.execute_random(geo, os.path.join(wd, f"r{i}"), rng, niter, adpt_fac=adpt_fac, ncpu=ncpu,
                                                  allow_par=allow_par)
         info = dict(origin="random", ops=summary, adpt_fac=adpt_fac, ncpu=ncpu, seed=seed(), index=i)
-        batch.add(geo, ncpu, ev, info)
-        rep.case((geo.key(), "random", i, seed(), name))
+        batch.add(geo, ncpu, w, ev, info, classes={"random"} | RS.classes_of(summary, w))
+        ctx.rep.case((geo.key(), "random", i, seed(), name))
     shutil.rmtree(wd, ignore_errors=True)
 
 
-def selftest_binding(rep, geo, pid="x"):
-    """the binding must be able to reject: corrupt one logged weight / drop one event of a good trace"""
-    import copy
+def star_of(geo, cell):
+    out = set()
+    for a, b, c, d in GROUPS[geo.group]["mats"]:
+        out.add(((a * cell[0] + b * cell[1]) % geo.U, (c * cell[0] + d * cell[1]) % geo.U))
+    return out
+
+
+def swap_representative(trace, geo):
+    """a copy of the trace in which one K-point created by the first refinement is replaced, everywhere, by another
+    member of its star (what an implementation with another valid tie-break would report); None if there is none"""
+    tr = copy.deepcopy(trace)
+    j = None
+    new = None
+    for e in tr:
+        if j is None and e.get("e") == "Refine":
+            for idx in range(e["nkprev"], len(e["kl"])):
+                c = (e["kl"][idx][0], e["kl"][idx][1])
+                others = sorted(star_of(geo, c) - {c})
+                if others:
+                    j, new = idx, others[0]
+                    break
+        if j is not None:
+            for lst in (e.get("kl"), (e.get("disk") or {}).get("pick")):
+                if lst is not None and len(lst) > j:
+                    lst[j][0], lst[j][1] = new[0], new[1]
+    return tr if j is not None else None
+
+
+def selftest_binding(ctx, geo):
+    """the binding must be able to reject (corrupt one logged coefficient, duplicate one evaluation) and the property
+    level must not reject what the properties leave free (a dropped loop event, another orbit representative)"""
+    rep = ctx.rep
     ops = [dict(op="run", restart=False, mode=dict(par=False, dump=False, allow=True, sym=True), nit=1, refine=[], sched={})]
-    ev, errs, w = RS.execute(ops, geo, os.path.join(workdir(f"rg_selftest_{pid}"), "s"))
+    ev, errs, w = RS.execute(ops, geo, os.path.join(ctx.wd("selftest"), "s"))
+    ctx.note_world(w)
+    if w.private_gone:
+        ctx.skipped_private += w.private_gone
+        ctx.traces_off = True
+        return
+    if errs or w.problems or w.errors:
+        # run() fails on the simplest scenario: let the ordinary path report it
+        return
     bad1 = copy.deepcopy(ev)
     for e in bad1:
         if e["e"] == "UpdateIntegral":
             e["coef"]["coef"][0] += 1
             break
-    bad2 = [e for i, e in enumerate(ev) if not (e["e"] == "Eval" and e.get("k") == 1)]
-    st, v = RT.validate([ev, bad1, bad2], geo, 2, f"selftest_{pid}")
-    if not v[0]["ok"] or v[1]["ok"] or v[2]["ok"]:
-        raise MachineryError(f"binding self-test failed: {v}")
-    rep.part("binding_selftest", good_accepted=True, corrupted_weight_rejected=v[1]["why"], dropped_event_rejected=v[2]["why"])
+    bad2 = [e for e in ev if not (e["e"] == "Eval" and e.get("k") == 1)]
+    i1 = next(i for i, e in enumerate(ev) if e["e"] == "Eval" and e.get("k") == 1)
+    bad3 = ev[:i1 + 1] + [copy.deepcopy(ev[i1])] + ev[i1 + 1:]
+    swapped = swap_representative(ev, geo)
+    traces = [ev, bad1, bad2, bad3] + ([swapped] if swapped is not None else [])
+    stats, v = RT.validate(traces, geo, 2, ctx.tname("selftest"))
+    ok = (v[0]["ok"] and v[0]["level"] == "strict" and not v[1]["ok"] and v[2]["ok"] and v[2]["level"] == "property"
+          and not v[3]["ok"] and (swapped is None or (v[4]["ok"] and v[4]["level"] == "property")))
+    if not ok:
+        raise MachineryError(f"binding self-test failed: {[dict(ok=x['ok'], level=x.get('level'), why=x['why']) for x in v]}")
+    rep.part("binding_selftest", good_accepted_strict=True, corrupted_coefficient_rejected=v[1]["why"],
+             duplicated_evaluation_rejected=v[3]["why"],
+             dropped_loop_event="rejected on the strict level, accepted on the property level",
+             other_orbit_representative=("rejected on the strict level, accepted on the property level" if swapped is not None else "not applicable"))
 
 
-def large_worlds(rep, rng, thorough):
-    """C10 where weights and weight changes are tiny (1e-3 .. 2e-7): deep refinement on a 32x32 grid; compact records
-    of every UpdateIntegral / Return validated by TLC (RunGridSummaryRec)"""
-    import random as _r
+def large_worlds(ctx, rng):
+    """C10 where weights and weight changes are tiny (1e-3 .. 2e-7): deep refinement on a 32x32 grid; the projected
+    weight / coefficient vectors of every UpdateIntegral / Return / returned object are compared by TLC
+    (RunGridSummaryRec)"""
     from .. import ftable
     from ..rungrid_world import World
+    rep = ctx.rep
     recs = []
     plans = [("none", False, False), ("c4", True, False), ("none", False, True)]
-    if thorough:
+    if ctx.thorough:
         plans += [("c4v", True, True), ("mx", True, False), ("none", False, False)]
-    wd = workdir("rg_large")
+    wd = ctx.wd("large")
+    nruns = 0
     for j, (group, sym, dump) in enumerate(plans):
         geo = Geometry(2, 32, 2, 6, group).use_registry(1500)
-        w = World(geo, os.path.join(wd, f"w{j}"))
         sd = rng.randrange(1 << 30)
-
-        def pri(cell, lev, sd=sd):
-            r = _r.Random(hash((cell, lev, sd)))
-            return float(r.choice([1, 2, 3, 5, 7])) * 1.0e3 ** lev   # deep-first: children outrank everything older
-        w.calc.pri = pri
+        w = World(geo, os.path.join(wd, f"w{j}"), priority=Priority("deep", salt=sd))
         res, err = w.run(6, allow=dump, dump=dump, sym=sym, adpt_fac=2, summary=True)
-        if err:
-            rep.violation("large_world:exception", dict(group=group, sym=sym, dump=dump, error=err))
+        ctx.note_world(w)
+        for e in w.errors:
+            rep.violation(f"raises:{e['site']}:{e['type']}", dict(what="run() raised in a large world", group=group, sym=sym, dump=dump,
+                                                                    error=e["text"], traceback=e["traceback"]))
         if w.problems:
-            rep.violation("large_world:projection", dict(group=group, problems=w.problems[:3]))
+            rep.violation("projection:nonintegral", dict(what="large world", group=group, problems=[t for _, t in w.problems[:3]]))
+        if w.private_gone:
+            ctx.skipped_private += [p for p in w.private_gone if p not in ctx.skipped_private]
+            continue
         evs = [e for e in w.events if "nonintegral" not in e]
-        if not evs or min(e["minpos"] for e in evs) * 10 ** 6 > 3 * geo.WTOT:
+        if w.errors or w.problems:
+            continue
+        minpos = min([min([x for x in e["facs"] if x > 0] or [geo.WTOT]) for e in evs] or [geo.WTOT])
+        if not evs or minpos * 10 ** 6 > 3 * geo.WTOT:
             raise MachineryError("large world did not reach weights below 3e-6")
         for e in evs:
             e["world"] = j
             recs.append(e)
+        nruns += 1
         rep.case(("large", group, sym, dump, sd))
+        rep.part("large_worlds", **{f"smallest_weight_{j}": minpos / geo.WTOT, f"points_{j}": len(evs[-1]["facs"])})
     shutil.rmtree(wd, ignore_errors=True)
-    st, bad = ftable.validate_records("RunGridSummaryRec.tla", ftable.REC_CFG, recs, "c10_large")
+    if not recs:
+        return
+    if not any(e["e"] == "Returned" for e in recs):
+        raise MachineryError("large worlds: the returned object was not recorded")
+    st, bad = ftable.validate_records("RunGridSummaryRec.tla", ftable.REC_CFG, recs, ctx.tname("large"))
     rep.add_tlc("c10_large_records", st)
-    rep.add_traces(len(plans))
+    rep.add_traces(nruns)
     for i, clauses in bad.items():
-        rep.violation("large_world:" + clauses[0], dict(record=recs[i], failing_clauses=clauses))
-    rep.part("large_worlds", runs=len(plans), records=len(recs), smallest_weight=min(e["minpos"] for e in recs) / recs[0]["wtot"])
+        r = recs[i]
+        mism = [[k + 1, c, f] for k, (c, f) in enumerate(zip(r["coef"], r["facs"])) if c != f][:10]
+        rep.violation("large_world:" + clauses[0], dict(event=r["e"], world=r["world"], failing_clauses=clauses, wtot=r["wtot"],
+                                                         sum_weights=sum(r["facs"]), sum_coefficients=sum(r["coef"]), stray=r["stray"],
+                                                         first_mismatches_index_coef_weight=mism))
+    rep.part("large_worlds", runs=nruns, records=len(recs))
 
 
 GEOS = {
@@ -230,108 +403,191 @@ GEOS = {
     "2d_h3m": Geometry(2, 3, 3, 3, "h3m"),
 }
 
-RUN_ACTIONS = ["StartA", "RefineA"]
+
+def simulate_all(ctx, plan):
+    """plan: list of (key, geo, cfg, num, depth) -> {key: scripts}; the TLC -simulate runs are single-threaded, several
+    run side by side"""
+    def work(p):
+        key, geo, cfg, num, depth = p
+        return key, simulate_scripts(ctx, geo, cfg, key, num, depth, seed() + 1)[1]
+    if POOL > 1 and len(plan) > 1:
+        with ThreadPoolExecutor(max_workers=POOL) as ex:
+            return dict(ex.map(work, plan))
+    return dict(work(p) for p in plan)
+
+
+def require_classes(ctx, needed):
+    missing = [c for c in needed if ctx.classes[c] == 0]
+    if missing and not ctx.skipped_private and not ctx.rep.violations:
+        raise MachineryError(f"scenario classes never executed on the real code: {missing} (executed: {dict(ctx.classes)})")
 
 
 def check(pid, tier):
-    level = "model_checking"
-    rep = Report(pid, tier, level)
+    ctx = Ctx(pid, tier)
+    rep = ctx.rep
+    try:
+        _check(ctx)
+        _finish_parts(ctx)
+    except Exception:
+        if rep.violations:
+            try:
+                _finish_parts(ctx)
+                rep.finish()
+            except Exception:
+                pass
+        raise
+    finally:
+        try:
+            ctx.cleanup()
+        except Exception:
+            pass
+    return rep.finish()
+
+
+def _finish_parts(ctx):
+    rep = ctx.rep
+    if ctx.skipped_private:
+        rep.part("skipped_private", names=ctx.skipped_private[:10],
+                 effect="trace validation of the real run() skipped for the scenarios that needed these private names")
+    if ctx.soft_missing:
+        rep.part("skipped_private", optional=sorted(ctx.soft_missing)[:10])
+    if ctx.repr_diff:
+        rep.part("representation_differences", note="traces rejected on the strict level (model of the code as it is) and accepted on "
+                 "the property level: not violations", by_event_and_field=dict(ctx.repr_diff))
+    rep.part("scenario_classes", **{k: v for k, v in sorted(ctx.classes.items())})
+    if ctx.pid == "C11" or ctx.listing["restarts_with_permuted_listing"]:
+        rep.part("listing_shim", **dict(ctx.listing),
+                 note="0 consulted: the implementation does not list the restart directory through glob/os.listdir/os.scandir of "
+                      "run_grid; the clause 'independent of the listing order' is then exercised by TLC only")
+    if ctx.ray_fallbacks:
+        rep.part("ray_double", scripted_answers_replaced_by_fifo=ctx.ray_fallbacks)
+    rep.part("cpu", cpu_seconds_including_tlc=ctx.cpu(), tlc_workers=WORKERS, pool=POOL)
+
+
+def _check(ctx):
+    pid, rep, thorough = ctx.pid, ctx.rep, ctx.thorough
     rng = random.Random(seed() * 1000003 + {"C10": 10, "C11": 11, "C12": 12}[pid])
-    thorough = tier == "thorough"
-    batch = Batch(rep, pid)
+    batch = Batch(ctx)
     g1 = GEOS["1d_inv"]
     rep.assume("ray.wait follows its documented contract (at most num_returns ready refs; on timeout whatever is ready)")
-    rep.assume("per-K results are abstracted to one-hot vectors, refinement choices are forced through result magnitudes")
+    rep.assume("per-K results are abstracted to one-hot vectors, refinement choices are forced through result magnitudes "
+               "(tie-free: ties in the refinement criterion are excluded, which of two tied points is refined is not defined)")
+    rep.assume("restart_iteration going back is exercised with use_irred_kpt=True only (without symmetry run() re-creates "
+               "the later K-points instead of re-using them)")
     rep.rule("TLC: exhaustive exploration of MC_RunGrid within the listed constants; implementation: scenario scripts "
-             "(TLC simulate behaviours + seeded random) executed on the real run(), every hook event validated by TLC "
-             "against RunGridTrace; a case is distinct by (geometry, scenario)")
-    selftest_binding(rep, g1, pid)
+             "(TLC simulate behaviours + seeded random) executed on the real run(), hook events validated by TLC "
+             "against RunGridTrace (strict level first; traces it rejects are decided on the property level); a case is "
+             "distinct by (geometry, scenario)")
+    selftest_binding(ctx, g1)
+    mult = 6 if thorough else 1
 
     if pid == "C10":
         # all storage modes, refinement meshes, adpt_fac, symmetry settings; no restart
-        exhaustive(rep, "c10_1d", mc_cfg(g1, niter=2, adptfac=1, withB=False), expect_actions=RUN_ACTIONS)
-        exhaustive(rep, "c10_1d_fac2", mc_cfg(g1, niter=2, adptfac=2, withB=False, allorders=True), expect_actions=RUN_ACTIONS)
-        exhaustive(rep, "c10_1d_ndiv3", mc_cfg(GEOS["1d_inv3"], niter=2, adptfac=1, withB=False), expect_actions=RUN_ACTIONS)
-        exhaustive(rep, "c10_2d_c4", mc_cfg(GEOS["2d_c4"], niter=2, adptfac=1, withB=False, allowA=(False,), dump=(False,)),
+        exhaustive(ctx, "c10_1d", mc_cfg(g1, niter=2, adptfac=1, withB=False), expect_actions=RUN_ACTIONS)
+        exhaustive(ctx, "c10_1d_fac2", mc_cfg(g1, niter=2, adptfac=2, withB=False, allorders=True), expect_actions=RUN_ACTIONS)
+        exhaustive(ctx, "c10_1d_ndiv3", mc_cfg(GEOS["1d_inv3"], niter=2, adptfac=1, withB=False), expect_actions=RUN_ACTIONS)
+        exhaustive(ctx, "c10_2d_c4", mc_cfg(GEOS["2d_c4"], niter=2, adptfac=1, withB=False, allowA=(False,), dump=(False,)),
                    expect_actions=RUN_ACTIONS)
         if thorough:
-            exhaustive(rep, "c10_2d_c4v_fac2", mc_cfg(GEOS["2d_c4v"], niter=2, adptfac=2, withB=False, allorders=False),
-                       expect_actions=RUN_ACTIONS, timeout=3000)
-            exhaustive(rep, "c10_1d_n6", mc_cfg(GEOS["1d_inv6"], niter=3, adptfac=1, withB=False, allowA=(True,), dump=(False, True)),
-                       expect_actions=RUN_ACTIONS, timeout=3000)
-        exhaustive(rep, "c10_1d_one", mc_cfg(GEOS["1d_one"], niter=3, adptfac=1, withB=False), expect_actions=RUN_ACTIONS)
-        exhaustive(rep, "c10_2d_h3", mc_cfg(Geometry(2, 3, 3, 2, "h3"), niter=2, adptfac=1, withB=False, allowA=(True,), dump=(True,),
+            exhaustive(ctx, "c10_2d_c4v_fac2", mc_cfg(GEOS["2d_c4v"], niter=2, adptfac=2, withB=False, allorders=False),
+                       expect_actions=RUN_ACTIONS, timeout=6000)
+            exhaustive(ctx, "c10_1d_n6", mc_cfg(GEOS["1d_inv6"], niter=3, adptfac=1, withB=False, allowA=(True,), dump=(False, True)),
+                       expect_actions=RUN_ACTIONS, timeout=6000)
+        exhaustive(ctx, "c10_1d_one", mc_cfg(GEOS["1d_one"], niter=3, adptfac=1, withB=False), expect_actions=RUN_ACTIONS)
+        exhaustive(ctx, "c10_2d_h3", mc_cfg(Geometry(2, 3, 3, 2, "h3"), niter=2, adptfac=1, withB=False, allowA=(True,), dump=(True,),
                                             sym=(True,), allorders=False), expect_actions=RUN_ACTIONS)
+        # "discarded" storage mode: no refinement, nothing kept (adpt_num_iter = 0, no allow_restart)
+        disc = dict(niter=0, adptfac=1, withB=False, allowA=(False,), dump=(False,), parA=(False, True))
+        exhaustive(ctx, "c10_discard", mc_cfg(g1, **disc),
+                   expect_actions=["StartA", "MBeginProcess", "MEvalSerial", "MCollect", "MUpdateFirst", "MSaveData", "MReturn"])
+        exhaustive(ctx, "c10_discard_reached", mc_cfg(g1, invs=["NeverCleared"], props=(), **disc), must_hold=False)
+        if ctx.traces_off:
+            return
         plan = [("1d_inv", 1, 2, 10), ("1d_inv", 2, 2, 6), ("1d_inv3", 1, 2, 6), ("2d_c4", 1, 2, 6), ("2d_c4v", 2, 2, 6),
                 ("1d_none", 1, 2, 4), ("1d_one", 1, 3, 4), ("2d_one", 1, 2, 4), ("2d_h3", 1, 3, 4), ("2d_h3m", 2, 3, 4)]
-        mult = 6 if thorough else 1
+        sims = []
         for gname, fac, niter, num in plan:
             geo = GEOS[gname]
             cfg = mc_cfg(geo, niter=niter, adptfac=fac, withB=False, parA=(False, True), view=False,
                          invs=["IntegralConsistent", "WeightOne"], props=(), allorders=False)
-            st, scripts = simulate_scripts(geo, cfg, f"c10_{gname}_{fac}", num * mult, 60 * (niter + 1), seed() + 1)
-            run_scripts(rep, batch, geo, scripts, f"c10_{gname}_{fac}", adpt_fac=fac)
-            run_random(rep, batch, geo, rng, max(2, num // 2) * mult, niter, f"c10_{gname}_{fac}", adpt_fac=fac)
+            sims.append((f"c10_{gname}_{fac}", geo, cfg, num * mult, 60 * (niter + 1)))
+        scripts = simulate_all(ctx, sims)
+        for gname, fac, niter, num in plan:
+            geo = GEOS[gname]
+            run_scripts(ctx, batch, geo, scripts[f"c10_{gname}_{fac}"], f"c10_{gname}_{fac}", adpt_fac=fac)
+            run_random(ctx, batch, geo, rng, max(2, num // 2) * mult, niter, f"c10_{gname}_{fac}", adpt_fac=fac)
+        # the discarded mode on the real code (serial and parallel)
+        for par in (False, True):
+            for geo in (g1, GEOS["2d_c4"]):
+                ops = [dict(op="run", restart=False, mode=dict(par=par, dump=False, allow=False, sym=True), nit=0, refine=[], sched={})]
+                run_scripts(ctx, batch, geo, [ops], f"c10_discard_{geo.D}_{int(par)}", origin="fixed")
         batch.validate("c10")
-        large_worlds(rep, rng, thorough)
+        large_worlds(ctx, rng)
+        require_classes(ctx, ["tlc-behaviour", "random", "dump", "parallel", "symmetry", "memory_only", "discarded", "restart"])
 
     elif pid == "C11":
-        exhaustive(rep, "c11_1d", mc_cfg(g1, niter=2, adptfac=1, restart_iters=(0, 1, 2)), expect_actions=RUN_ACTIONS + ["EndA", "StartB", "RestartB", "RefineB"])
-        exhaustive(rep, "c11_1d_v0", mc_cfg(g1, niter=2, adptfac=1, sorted_listing=False), must_hold=False)
-        exhaustive(rep, "c11_1d_fac2", mc_cfg(g1, niter=2, adptfac=2, allorders=False, allowA=(True,)),
-                   expect_actions=RUN_ACTIONS + ["EndA", "StartB", "RestartB", "RefineB"])
+        acts = RUN_ACTIONS + B_ACTIONS
+        exhaustive(ctx, "c11_1d", mc_cfg(g1, niter=2, adptfac=1, restart_iters=(0, 1, 2)), expect_actions=acts + ["RestartBBack"])
+        exhaustive(ctx, "c11_1d_v0", mc_cfg(g1, niter=2, adptfac=1, sorted_listing=False), must_hold=False)
+        exhaustive(ctx, "c11_1d_fac2", mc_cfg(g1, niter=2, adptfac=2, allorders=False, allowA=(True,)), expect_actions=acts)
         if thorough:
-            exhaustive(rep, "c11_1d_3it", mc_cfg(GEOS["1d_inv6"], niter=3, adptfac=1, allowA=(True,), sym=(True,)),
-                       expect_actions=RUN_ACTIONS + ["EndA", "StartB", "RestartB", "RefineB"], timeout=3000)
-            exhaustive(rep, "c11_2d_c4", mc_cfg(GEOS["2d_c4"], niter=2, adptfac=1, allowA=(True,), sym=(True,), dump=(False, True)),
-                       expect_actions=RUN_ACTIONS + ["EndA", "StartB", "RestartB", "RefineB"], timeout=3000)
+            exhaustive(ctx, "c11_1d_3it", mc_cfg(GEOS["1d_inv6"], niter=3, adptfac=1, allowA=(True,), sym=(True,)),
+                       expect_actions=acts, timeout=6000)
+            exhaustive(ctx, "c11_2d_c4", mc_cfg(GEOS["2d_c4"], niter=2, adptfac=1, allowA=(True,), sym=(True,), dump=(False, True)),
+                       expect_actions=acts, timeout=6000)
+        if ctx.traces_off:
+            return
         plan = [("1d_inv", 1, 2, 14), ("1d_inv", 2, 2, 6), ("2d_c4", 1, 2, 6), ("1d_inv6", 1, 3, 6)]
-        mult = 6 if thorough else 1
+        sims = []
         for gname, fac, niter, num in plan:
             geo = GEOS[gname]
             cfg = mc_cfg(geo, niter=niter, adptfac=fac, view=False, invs=["RestartEquivalence"], props=(), allorders=False,
                          restart_iters=(0, 1, 1, 2))
-            st, scripts = simulate_scripts(geo, cfg, f"c11_{gname}_{fac}", num * mult, 60 * (niter + 1), seed() + 1)
-            run_scripts(rep, batch, geo, scripts, f"c11_{gname}_{fac}", adpt_fac=fac)
-            run_random(rep, batch, geo, rng, (num // 2) * mult, niter, f"c11_{gname}_{fac}", adpt_fac=fac, allow_par=False)
+            sims.append((f"c11_{gname}_{fac}", geo, cfg, num * mult, 60 * (niter + 1)))
+        scripts = simulate_all(ctx, sims)
+        for gname, fac, niter, num in plan:
+            geo = GEOS[gname]
+            run_scripts(ctx, batch, geo, scripts[f"c11_{gname}_{fac}"], f"c11_{gname}_{fac}", adpt_fac=fac)
+            run_random(ctx, batch, geo, rng, (num // 2) * mult, niter, f"c11_{gname}_{fac}", adpt_fac=fac, allow_par=False)
         batch.validate("c11")
+        require_classes(ctx, ["tlc-behaviour", "random", "restart", "listing_permuted", "restart_back_or_explicit", "dump"])
 
     elif pid == "C12":
         gp = Geometry(1, 5, 2, 1, "none")
-        acts = RUN_ACTIONS
-        exhaustive(rep, "c12_n5", mc_cfg(gp, nstep=2, niter=1, parA=(True,), dump=(False,), allowA=(False,), sym=(False,), withB=False,
-                                         allorders=False), expect_actions=acts)
-        exhaustive(rep, "c12_n5_first", mc_cfg(gp, nstep=2, niter=1, parA=(True,), dump=(False,), allowA=(False,), sym=(False,),
-                                               withB=False, allorders=False, waitfirst=True), expect_actions=acts)
-        exhaustive(rep, "c12_n5_v0", mc_cfg(gp, nstep=2, niter=1, parA=(True,), dump=(False,), allowA=(False,), sym=(False,),
-                                            withB=False, allorders=False, acc=False), must_hold=False)
-        exhaustive(rep, "c12_n4_dump", mc_cfg(g1, nstep=1, niter=1, parA=(True,), dump=(True, False), allowA=(True,), sym=(True,),
+        acts = ["StartA", "RefineA"] + PAR_ACTS
+        par1 = dict(niter=1, parA=(True,), dump=(False,), allowA=(False,), sym=(False,), withB=False, allorders=False)
+        exhaustive(ctx, "c12_n5", mc_cfg(gp, nstep=2, **par1), expect_actions=acts)
+        exhaustive(ctx, "c12_n5_first", mc_cfg(gp, nstep=2, waitfirst=True, **par1), expect_actions=acts)
+        exhaustive(ctx, "c12_n5_v0", mc_cfg(gp, nstep=2, acc=False, **par1), must_hold=False)
+        exhaustive(ctx, "c12_n4_dump", mc_cfg(g1, nstep=1, niter=1, parA=(True,), dump=(True, False), allowA=(True,), sym=(True,),
                                               withB=False), expect_actions=acts)
         if thorough:
             g6 = Geometry(1, 6, 2, 1, "none")
-            exhaustive(rep, "c12_n6_s2", mc_cfg(g6, nstep=2, niter=1, parA=(True,), dump=(False,), allowA=(False,), sym=(False,),
-                                                withB=False, allorders=False), expect_actions=acts, timeout=3000)
-            exhaustive(rep, "c12_n6_s3", mc_cfg(g6, nstep=3, niter=1, parA=(True,), dump=(False,), allowA=(False,), sym=(False,),
-                                                withB=False, allorders=False), expect_actions=acts, timeout=3000)
-        mult = 6 if thorough else 1
-        plan = [(gp, 2, 1, 12), (Geometry(1, 6, 2, 1, "none"), 3, 1, 6), (g1, 1, 2, 6), (GEOS["2d_c4"], 2, 2, 6)]
-        for j, (geo, ncpu, niter, num) in enumerate(plan):
-            cfg = mc_cfg(geo, nstep=ncpu, niter=niter, parA=(True,), parB=(True,), withB=False, view=False,
-                         invs=["CollectedOnce", "IntegralConsistent"], props=(), allorders=False, sym=(geo.group != "none",))
-            st, scripts = simulate_scripts(geo, cfg, f"c12_{j}", num * mult, 100, seed() + 1)
-            run_scripts(rep, batch, geo, scripts, f"c12_{j}", ncpu=ncpu)
-            # random schedules (both ray.wait answer policies), parallel forced
-            wd = workdir(f"rgp_{j}")
-            for i in range(num * mult):
-                w = RS.World(geo, os.path.join(wd, f"r{i}"))
-                d = rng.random() < 0.3
-                m = dict(par=True, dump=d, allow=d or rng.random() < 0.5, sym=geo.group != "none")
-                res, err = w.run(niter, parallel=True, dump=m["dump"], allow=m["allow"], sym=m["sym"],
-                                 schedule=RS.random_schedule(rng, first_n=(i % 2 == 0)), ncpu=ncpu)
-                batch.add(geo, ncpu, w.events, dict(origin="random-schedule", index=i, seed=seed(), ncpu=ncpu, mode=m, nit=niter))
-                rep.case((geo.key(), "randsched", j, i, seed()))
-            shutil.rmtree(wd, ignore_errors=True)
-        batch.validate("c12")
+            exhaustive(ctx, "c12_n6_s2", mc_cfg(g6, nstep=2, **par1), expect_actions=acts, timeout=6000)
+            exhaustive(ctx, "c12_n6_s3", mc_cfg(g6, nstep=3, **par1), expect_actions=acts, timeout=6000)
+        if not ctx.traces_off:
+            plan = [(gp, 2, 1, 12), (Geometry(1, 6, 2, 1, "none"), 3, 1, 6), (g1, 1, 2, 6), (GEOS["2d_c4"], 2, 2, 6)]
+            sims = []
+            for j, (geo, ncpu, niter, num) in enumerate(plan):
+                cfg = mc_cfg(geo, nstep=ncpu, niter=niter, parA=(True,), parB=(True,), withB=False, view=False,
+                             invs=["CollectedOnce", "IntegralConsistent"], props=(), allorders=False, sym=(geo.group != "none",))
+                sims.append((f"c12_{j}", geo, cfg, num * mult, 100))
+            scripts = simulate_all(ctx, sims)
+            for j, (geo, ncpu, niter, num) in enumerate(plan):
+                run_scripts(ctx, batch, geo, scripts[f"c12_{j}"], f"c12_{j}", ncpu=ncpu)
+                # random schedules (both ray.wait answer policies), parallel forced
+                wd = ctx.wd(f"p_{j}")
+                for i in range(num * mult):
+                    w = RS.World(geo, os.path.join(wd, f"r{i}"), priority=Priority("random", salt=rng.randrange(1 << 30)))
+                    d = rng.random() < 0.3
+                    m = dict(par=True, dump=d, allow=d or rng.random() < 0.5, sym=geo.group != "none")
+                    res, err = w.run(niter, parallel=True, dump=m["dump"], allow=m["allow"], sym=m["sym"],
+                                     schedule=RS.random_schedule(rng, first_n=(i % 2 == 0)), ncpu=ncpu)
+                    batch.add(geo, ncpu, w, w.events, dict(origin="random-schedule", index=i, seed=seed(), ncpu=ncpu, mode=m, nit=niter),
+                              classes={"random-schedule", "parallel"} | ({"dump"} if d else set()))
+                    rep.case((geo.key(), "randsched", j, i, seed()))
+                shutil.rmtree(wd, ignore_errors=True)
+            batch.validate("c12")
+            require_classes(ctx, ["tlc-behaviour", "random-schedule", "parallel", "dump"])
         from . import rungrid_par_tab
-        rungrid_par_tab.check(rep, rng, thorough)
-    return rep.finish()
+        rungrid_par_tab.check(rep, rng, thorough, tag=ctx.tag)
